@@ -330,11 +330,11 @@ func runResolveCase(c *kit.Ctx, i int) {
 		c.Count("dep_decisions_satisfied", 1)
 		switch {
 		case nM > 0:
-			c.Violate("resolve-satisfied-despite-missing-dependency", cname, fmt.Sprintf("Resolve returned nil although %v (direct or transitive) are not in the lock", missing), wit(got))
+			violate(c, "resolve-satisfied-despite-missing-dependency", cname, fmt.Sprintf("Resolve returned nil although %v (direct or transitive) are not in the lock", missing), wit(got))
 		case len(bads) > 0:
-			c.Violate("resolve-satisfied-despite-"+bads[0].why, cname, fmt.Sprintf("Resolve returned nil although direct dependency %s is installed at %q which does not satisfy %q", bads[0].dep, bads[0].version, bads[0].constraint), wit(got))
+			violate(c, "resolve-satisfied-despite-"+bads[0].why, cname, fmt.Sprintf("Resolve returned nil although direct dependency %s is installed at %q which does not satisfy %q", bads[0].dep, bads[0].version, bads[0].constraint), wit(got))
 		case found != nC || installed != nC || invalid != 0:
-			c.Violate("resolve-counts-wrong-on-success", cname, fmt.Sprintf("Resolve returned nil with found=%d installed=%d invalid=%d, reference closure has %d packages, all present and valid", found, installed, invalid, nC), wit(got))
+			violate(c, "resolve-counts-wrong-on-success", cname, fmt.Sprintf("Resolve returned nil with found=%d installed=%d invalid=%d, reference closure has %d packages, all present and valid", found, installed, invalid, nC), wit(got))
 		}
 	case nM > 0:
 		c.Count("dep_decisions_missing", 1)
@@ -343,19 +343,19 @@ func runResolveCase(c *kit.Ctx, i int) {
 			// counts after a panic are meaningless; with the revision on a cycle through itself the
 			// implementation also lists the revision as missing (an error either way): not judged
 		case installed >= found:
-			c.Violate("resolve-missing-counted-as-installed", cname, fmt.Sprintf("%v are not in the lock but Resolve reported found=%d installed=%d", missing, found, installed), wit(got))
+			violate(c, "resolve-missing-counted-as-installed", cname, fmt.Sprintf("%v are not in the lock but Resolve reported found=%d installed=%d", missing, found, installed), wit(got))
 		case found == nC && installed == nC-nM:
 			c.Count("dep_counts_closure_form", 1)
 		case !pc.selfInLock && directMissing > 0 && found == len(pc.depSrc) &&
 			installed >= len(pc.depSrc)-directMissing && installed <= len(pc.depSrc)-directMissing+directMentioned:
 			c.Count("dep_counts_direct_only_form", 1) // documented shortcut: direct dependencies missing, transitive ones not examined
 		default:
-			c.Violate("resolve-counts-wrong-on-missing", cname, fmt.Sprintf("found=%d installed=%d; reference: closure %d with %d missing (or direct-only %d with %d missing)", found, installed, nC, nM, len(pc.depSrc), directMissing), wit(got))
+			violate(c, "resolve-counts-wrong-on-missing", cname, fmt.Sprintf("found=%d installed=%d; reference: closure %d with %d missing (or direct-only %d with %d missing)", found, installed, nC, nM, len(pc.depSrc), directMissing), wit(got))
 		}
 	case len(bads) > 0:
 		c.Count("dep_decisions_invalid_"+bads[0].why, 1)
 		if perr == nil && cleanCount && !closure[pc.selfSrc] && (invalid != len(bads) || found != nC || installed != nC) {
-			c.Violate("resolve-counts-wrong-on-incompatible", cname, fmt.Sprintf("found=%d installed=%d invalid=%d; reference: closure %d all present, %d direct dependencies with an incompatible version", found, installed, invalid, nC, len(bads)), wit(got))
+			violate(c, "resolve-counts-wrong-on-incompatible", cname, fmt.Sprintf("found=%d installed=%d invalid=%d; reference: closure %d all present, %d direct dependencies with an incompatible version", found, installed, invalid, nC, len(bads)), wit(got))
 		}
 	default:
 		// everything is present and valid, yet an error: not forbidden by the property (it is
